@@ -226,8 +226,12 @@ where
     {
         loop {
             match self.peek()? {
+                None => {
+                    check_symbol_at_eof(self, scratch)?;
+                    return result(self, scratch);
+                }
                 Some(b' ') | Some(b'\n') | Some(b'\t') | Some(b'\r') | Some(b')') | Some(b']')
-                | Some(b'(') | Some(b'[') | Some(b';') | None => {
+                | Some(b'(') | Some(b'[') | Some(b';') => {
                     if scratch == b"." {
                         return error(self, ErrorCode::InvalidSymbol);
                     }
@@ -382,19 +386,26 @@ impl<'a> SliceRead<'a> {
         let start = self.index;
 
         loop {
-            match self.peek_byte() {
+            let next = self.peek_byte();
+            match next {
                 None | Some(b' ') | Some(b'\n') | Some(b'\t') | Some(b'\r') | Some(b')')
                 | Some(b']') | Some(b'(') | Some(b'[') | Some(b';') => {
                     if scratch.is_empty() {
                         // Fast path: return a slice of the raw S-expression without any
                         // copying.
                         let borrowed = &self.slice[start..self.index];
+                        if next.is_none() {
+                            check_symbol_at_eof(self, borrowed)?;
+                        }
                         if borrowed == b"." {
                             return error(self, ErrorCode::InvalidSymbol);
                         }
                         return result(self, borrowed).map(Reference::Borrowed);
                     } else {
                         scratch.extend_from_slice(&self.slice[start..self.index]);
+                        if next.is_none() {
+                            check_symbol_at_eof(self, scratch)?;
+                        }
                         if scratch == b"." {
                             return error(self, ErrorCode::InvalidSymbol);
                         }
@@ -686,6 +697,19 @@ fn error<'de, R: ?Sized + Read<'de>, T>(read: &R, reason: ErrorCode) -> Result<T
     Err(Error::syntax(reason, position.line, position.column))
 }
 
+/// A symbol that extends to the end of the input: a lone dot or a cut-off multi-byte character
+/// is a truncated symbol (more input could complete it), not a malformed one.
+fn check_symbol_at_eof<'de, R: ?Sized + Read<'de>>(read: &R, name: &[u8]) -> Result<()> {
+    let cut = match str::from_utf8(name) {
+        Ok(_) => name == b".",
+        Err(e) => e.error_len().is_none(),
+    };
+    if cut {
+        return error(read, ErrorCode::EofWhileParsingValue);
+    }
+    Ok(())
+}
+
 fn as_str<'de, 's, R: Read<'de>>(read: &R, slice: &'s [u8]) -> Result<&'s str> {
     str::from_utf8(slice).or_else(|_| error(read, ErrorCode::InvalidUnicodeCodePoint))
 }
@@ -694,6 +718,19 @@ fn as_char<'de, 's, R: Read<'de> + ?Sized>(read: &R, value: u32) -> Result<char>
     match char::from_u32(value) {
         None => error(read, ErrorCode::InvalidUnicodeCodePoint),
         Some(c) => Ok(c),
+    }
+}
+
+/// The character denoted by a numeric escape that is not delimited by itself (`#\xD8`, `?\xD8`):
+/// if the input ends right after the digits, further digits could still turn an invalid code
+/// point into a valid one, so this is a truncation and not a malformed character.
+fn as_char_or_eof<'de, R: Read<'de> + ?Sized>(read: &mut R, value: u32) -> Result<char> {
+    match char::from_u32(value) {
+        Some(c) => Ok(c),
+        None if read.peek()?.is_none() => {
+            error(read, ErrorCode::EofWhileParsingCharacterConstant)
+        }
+        None => error(read, ErrorCode::InvalidUnicodeCodePoint),
     }
 }
 
@@ -958,10 +995,7 @@ fn parse_r6rs_char<'de, R: Read<'de> + ?Sized>(
     let initial = next_or_eof_char(read)?;
     if initial == b'x' {
         match decode_r6rs_char_hex_escape(read)? {
-            Some(n) => match char::from_u32(n) {
-                Some(c) => Ok(c),
-                None => error(read, ErrorCode::InvalidUnicodeCodePoint),
-            },
+            Some(n) => as_char_or_eof(read, n),
             None => Ok('x'),
         }
     } else if initial > 0x7F {
@@ -1003,10 +1037,21 @@ fn parse_r6rs_char<'de, R: Read<'de> + ?Sized>(
             b"esc" => Ok('\x1B'),
             b"space" => Ok(' '),
             b"delete" => Ok('\x7F'),
-            _ => error(read, ErrorCode::InvalidCharacterConstant),
+            name => {
+                // At the end of the input, the beginning of a character name is a truncation.
+                if read.peek()?.is_none() && CHAR_NAMES.iter().any(|n| n.starts_with(name)) {
+                    return error(read, ErrorCode::EofWhileParsingCharacterConstant);
+                }
+                error(read, ErrorCode::InvalidCharacterConstant)
+            }
         }
     }
 }
+
+static CHAR_NAMES: [&[u8]; 12] = [
+    b"nul", b"alarm", b"backspace", b"tab", b"linefeed", b"newline", b"vtab", b"page", b"return",
+    b"esc", b"space", b"delete",
+];
 
 /// Expects a `#\x` sequence has just been consumed; returns the value of the
 /// subsequent hex digits, or `None`, if the sequence was empty.
@@ -1117,11 +1162,11 @@ fn decode_elisp_char_escape<'de, R: Read<'de> + ?Sized>(
         }
         b'x' => {
             // Hexadecimal escape, allows arbitrary number of hex digits.
-            decode_elisp_hex_escape(read).and_then(|n| as_char(read, n))
+            decode_elisp_hex_escape(read).and_then(|n| as_char_or_eof(read, n))
         }
         b'0' | b'1' | b'2' | b'3' | b'4' | b'5' | b'6' | b'7' => {
             // Octal escape, allows arbitrary number of octale digits.
-            decode_elisp_octal_escape(read, ch).and_then(|n| as_char(read, n))
+            decode_elisp_octal_escape(read, ch).and_then(|n| as_char_or_eof(read, n))
         }
         next => {
             if next > 0x7F {
@@ -1207,7 +1252,7 @@ pub(crate) fn decode_utf8_sequence<'de, R: Read<'de> + ?Sized>(
     for _ in 0..len {
         let b = match read.next()? {
             Some(c) => c,
-            None => return error(read, ErrorCode::InvalidUnicodeCodePoint),
+            None => return error(read, ErrorCode::EofWhileParsingValue),
         };
         scratch.push(b);
     }
